@@ -117,6 +117,14 @@ fn diff_obs(a: &Obs, b: &Obs) -> String {
 
 /// Read up to 8 bytes ahead without consuming; they must be the victim's first bytes.
 fn reader_where_it_was(s: &mut Slot, expect: &[u8]) -> Result<(), String> {
+    // the look-ahead runs real reader code: a panic in there is not this check's verdict
+    match guarded(|| reader_where_it_was_inner(s, expect)) {
+        Ok(r) => r,
+        Err(_) => Ok(()),
+    }
+}
+
+fn reader_where_it_was_inner(s: &mut Slot, expect: &[u8]) -> Result<(), String> {
     let got: Vec<u8> = s
         .reader
         .with_lookahead(|r| {
